@@ -18,6 +18,7 @@ import (
 	"github.com/ucan-wg/go-ucan/pkg/command"
 	"github.com/ucan-wg/go-ucan/pkg/meta"
 	"github.com/ucan-wg/go-ucan/pkg/policy"
+	"github.com/ucan-wg/go-ucan/pkg/policy/limits"
 	"github.com/ucan-wg/go-ucan/token/internal/nonce"
 	"github.com/ucan-wg/go-ucan/token/internal/parse"
 )
@@ -174,6 +175,22 @@ func (t *Token) validate() error {
 
 	if len(t.nonce) < 12 {
 		errs = errors.Join(errs, fmt.Errorf("token nonce too small"))
+	}
+
+	// The checks below mirror what the decoders enforce, so that a token accepted
+	// by a constructor can always be read back once sealed.
+	if _, err := command.Parse(t.command.String()); err != nil {
+		errs = errors.Join(errs, fmt.Errorf("invalid command: %w", err))
+	}
+	if pol, err := t.policy.ToIPLD(); err != nil {
+		errs = errors.Join(errs, fmt.Errorf("invalid policy: %w", err))
+	} else if err := limits.ValidateIntegerBoundsIPLD(pol); err != nil {
+		errs = errors.Join(errs, fmt.Errorf("policy contains integer values outside safe bounds: %w", err))
+	}
+	for name, ts := range map[string]*time.Time{"notBefore": t.notBefore, "expiration": t.expiration} {
+		if ts != nil && (ts.Unix() > limits.MaxInt53 || ts.Unix() < limits.MinInt53) {
+			errs = errors.Join(errs, fmt.Errorf("%s timestamp %d exceeds safe integer bounds", name, ts.Unix()))
+		}
 	}
 
 	return errs
